@@ -1,6 +1,9 @@
 (* C02, table part: the data tables REGENERATED from html5ever's tree builder (Gen/GenTagSets.v, GenQuirks.v,
    GenAdjust.v, GenDispatch.v) equal the lists of the WHATWG standard (TreeTables/WhatwgLists.v,
    WhatwgDispatch.v), up to the named exception lists of TreeTables/Deviations.v.
+   The lemmas "..._except" state agreement OUTSIDE the exception list, so they keep holding when html5ever repairs a
+   deviation; that each listed deviation is present right now (exactness, refutations) is stated separately in
+   Inst/FindingsTreeTables.v, which is expected to break when a deviation is repaired.
    Every lemma is closed by vm_compute on a decidable comparison + the soundness lemma of TreeTables/TableChecks.v,
    so it breaks deterministically when the corresponding cell of the Rust source changes; Inst/WitnessTreeTables.v
    then prints the differing elements. *)
@@ -19,31 +22,29 @@ Definition up_to {A} (m : A -> list A -> bool) (std extra missing : list A) (n :
 
 Ltac by_eset := apply (set_eqb_except_nil ename_eqb ename_eqb_ok); vm_compute; reflexivity.
 Ltac by_sset := apply (set_eqb_except_nil String.eqb string_eqb_ok); vm_compute; reflexivity.
+Ltac by_eout := unfold emem; apply (set_eqb_outside_sound ename_eqb ename_eqb_ok); vm_compute; reflexivity.
+Ltac by_sout := unfold smem; apply (set_eqb_outside_sound String.eqb string_eqb_ok); vm_compute; reflexivity.
 Ltac by_eexc := unfold up_to, emem; apply (set_eqb_except_sound ename_eqb ename_eqb_ok); vm_compute; reflexivity.
 Ltac by_sexc := unfold up_to, smem; apply (set_eqb_except_sound String.eqb string_eqb_ok); vm_compute; reflexivity.
 
 (* ================================================================== tag sets (GenTagSets.v) *)
-Lemma special_tag_is_whatwg_except : forall n,
-  emem n ts_special_tag = up_to emem whatwg_special special_extra special_missing n.
-Proof. by_eexc. Qed.
-Lemma special_exceptions_exact :
-  (forall n, emem n special_extra = true -> emem n ts_special_tag = true /\ emem n whatwg_special = false) /\
-  (forall n, emem n special_missing = true -> emem n whatwg_special = true /\ emem n ts_special_tag = false).
-Proof. apply (set_eqb_except_exact ename_eqb ename_eqb_ok). vm_compute. reflexivity. Qed.
+Lemma special_tag_is_whatwg_except : forall n, emem n (special_extra ++ special_missing) = false ->
+  emem n ts_special_tag = emem n whatwg_special.
+Proof. by_eout. Qed.
 (* restricted to HTML element names the only differences are isindex / keygen / search *)
-Lemma special_tag_html_names : forall n,
-  smem n (map snd ts_special_tag) = up_to smem whatwg_special_html ["isindex"] ["keygen"; "search"] n.
-Proof. by_sexc. Qed.
+Lemma special_tag_html_names : forall n, smem n ["isindex"; "keygen"; "search"] = false ->
+  smem n (map snd ts_special_tag) = smem n whatwg_special_html.
+Proof. by_sout. Qed.
 
-Lemma default_scope_is_whatwg_except : forall n,
-  emem n ts_default_scope = up_to emem whatwg_scope [] scope_missing n.
-Proof. by_eexc. Qed.
-Lemma list_item_scope_is_whatwg_except : forall n,
-  emem n ts_list_item_scope = up_to emem whatwg_list_item_scope [] scope_missing n.
-Proof. by_eexc. Qed.
-Lemma button_scope_is_whatwg_except : forall n,
-  emem n ts_button_scope = up_to emem whatwg_button_scope [] scope_missing n.
-Proof. by_eexc. Qed.
+Lemma default_scope_is_whatwg_except : forall n, emem n scope_missing = false ->
+  emem n ts_default_scope = emem n whatwg_scope.
+Proof. by_eout. Qed.
+Lemma list_item_scope_is_whatwg_except : forall n, emem n scope_missing = false ->
+  emem n ts_list_item_scope = emem n whatwg_list_item_scope.
+Proof. by_eout. Qed.
+Lemma button_scope_is_whatwg_except : forall n, emem n scope_missing = false ->
+  emem n ts_button_scope = emem n whatwg_button_scope.
+Proof. by_eout. Qed.
 Lemma html_default_scope_is_whatwg : ts_html_default_scope =e= html whatwg_scope_html.
 Proof. by_eset. Qed.
 Lemma table_scope_is_whatwg : ts_table_scope =e= whatwg_table_scope.
@@ -70,14 +71,14 @@ Proof. by_eset. Qed.
 (* local sets *)
 Lemma foster_target_is_whatwg : ts_appropriate_place_for_insertion__foster_target =e= whatwg_foster_targets.
 Proof. by_eset. Qed.
-Lemma body_end_ok_is_whatwg_except : forall n,
-  emem n ts_check_body_end__body_end_ok = up_to emem whatwg_body_end_ok [] body_end_ok_missing n.
-Proof. by_eexc. Qed.
+Lemma body_end_ok_is_whatwg_except : forall n, emem n body_end_ok_missing = false ->
+  emem n ts_check_body_end__body_end_ok = emem n whatwg_body_end_ok.
+Proof. by_eout. Qed.
 Lemma close_p_implied_is_whatwg : ts_close_p_element__implied =e= whatwg_implied_end_except_p.
 Proof. by_eset. Qed.
-Lemma table_text_current_is_whatwg_except : forall n,
-  emem n ts_process_chars_in_table__table_outer = up_to emem whatwg_table_text_current [] table_text_current_missing n.
-Proof. by_eexc. Qed.
+Lemma table_text_current_is_whatwg_except : forall n, emem n table_text_current_missing = false ->
+  emem n ts_process_chars_in_table__table_outer = emem n whatwg_table_text_current.
+Proof. by_eout. Qed.
 Lemma form_associatable_is_whatwg : ts_insert_element__form_associatable =e= whatwg_form_associated.
 Proof. by_eset. Qed.
 Lemma listed_is_whatwg : ts_insert_element__listed =e= whatwg_listed.
@@ -86,13 +87,12 @@ Lemma close_list_is_whatwg : ts_step_InBody__close_list =e= whatwg_li_close.
 Proof. by_eset. Qed.
 Lemma close_defn_is_whatwg : ts_step_InBody__close_defn =e= whatwg_dd_dt_close.
 Proof. by_eset. Qed.
-Lemma extra_special_is_whatwg_except : forall n,
-  emem n ts_step_InBody__extra_special = up_to emem whatwg_special_except_address_div_p special_extra special_missing n.
-Proof. by_eexc. Qed.
-Lemma table_body_sections_is_whatwg_except : forall n,
-  emem n ts_step_InTableBody__table_outer =
-  up_to emem whatwg_table_body_sections table_body_sections_extra table_body_sections_missing n.
-Proof. by_eexc. Qed.
+Lemma extra_special_is_whatwg_except : forall n, emem n (special_extra ++ special_missing) = false ->
+  emem n ts_step_InBody__extra_special = emem n whatwg_special_except_address_div_p.
+Proof. by_eout. Qed.
+Lemma table_body_sections_is_whatwg_except : forall n, emem n (table_body_sections_extra ++ table_body_sections_missing) = false ->
+  emem n ts_step_InTableBody__table_outer = emem n whatwg_table_body_sections.
+Proof. by_eout. Qed.
 (* every declare_tag_set! of the source is covered by one of the lemmas above *)
 Lemma tag_sets_census : map fst tag_sets = [
   "ts_html_default_scope"; "ts_list_item_scope"; "ts_button_scope"; "ts_table_scope"; "ts_table_body_context";
@@ -105,9 +105,9 @@ Lemma tag_sets_census : map fst tag_sets = [
 Proof. vm_compute. reflexivity. Qed.
 
 (* ================================================================== quirks (GenQuirks.v) *)
-Lemma quirky_public_prefixes_is_whatwg_except : forall n,
-  smem n quirky_public_prefixes = up_to smem (map lower whatwg_quirks_public_prefixes) [] quirks_prefix_missing n.
-Proof. by_sexc. Qed.
+Lemma quirky_public_prefixes_is_whatwg_except : forall n, smem n quirks_prefix_missing = false ->
+  smem n quirky_public_prefixes = smem n (map lower whatwg_quirks_public_prefixes).
+Proof. by_sout. Qed.
 Lemma quirky_public_matches_is_whatwg : quirky_public_matches =s= map lower whatwg_quirks_public_ids.
 Proof. by_sset. Qed.
 Lemma quirky_system_matches_is_whatwg : quirky_system_matches =s= map lower whatwg_quirks_system_ids.
@@ -122,31 +122,25 @@ Proof. by_sset. Qed.
 Lemma quirks_arms_are_whatwg_modulo_srcdoc :
   list_eqb qarm_eqb (filter not_srcdoc quirks_arms) (filter not_srcdoc whatwg_quirks_decision) = true.
 Proof. vm_compute. reflexivity. Qed.
-Lemma quirks_arms_srcdoc_position :
-  map (fun a => qcond_eqb (fst a) QcSrcdoc) (firstn 3 quirks_arms) = [false; false; true] /\
-  map (fun a => qcond_eqb (fst a) QcSrcdoc) (firstn 1 whatwg_quirks_decision) = [true].
-Proof. vm_compute. split; reflexivity. Qed.
-
 Definition doctype_triple_eqb := pair_eqb (pair_eqb (opt_eqb String.eqb) (opt_eqb String.eqb)) (opt_eqb String.eqb).
-Lemma doctype_ok_triples_is_whatwg_except :
-  set_eqb_except doctype_triple_eqb doctype_ok_triples whatwg_doctype_ok_triples doctype_ok_extra [] = true.
-Proof. vm_compute. reflexivity. Qed.
+Lemma doctype_triple_eqb_ok : eqb_ok doctype_triple_eqb.
+Proof. repeat apply pair_eqb_ok; apply opt_eqb_ok, string_eqb_ok. Qed.
+Lemma doctype_ok_triples_is_whatwg_except : forall t, mem doctype_triple_eqb t doctype_ok_extra = false ->
+  mem doctype_triple_eqb t doctype_ok_triples = mem doctype_triple_eqb t whatwg_doctype_ok_triples.
+Proof. apply (set_eqb_outside_sound doctype_triple_eqb doctype_triple_eqb_ok). vm_compute. reflexivity. Qed.
 
 (* --- what the table equalities mean: the regenerated decision = the decision of the standard, for every DOCTYPE
    token of a document that is not an iframe srcdoc document and whose public identifier does not start with the
    missing Silmaril prefix (D6).  [gen_quirks_mode] is the meaning of the regenerated tables. *)
 Definition gen_quirks_mode (d : doctype) (srcdoc : bool) : qmode := eval_quirks quirks_tables quirks_arms d srcdoc.
 
-Definition whatwg_tables_without_silmaril : list (string * list string) := [
-  ("QUIRKY_PUBLIC_PREFIXES", tl (map lower whatwg_quirks_public_prefixes));
-  ("QUIRKY_PUBLIC_MATCHES", map lower whatwg_quirks_public_ids);
-  ("QUIRKY_SYSTEM_MATCHES", map lower whatwg_quirks_system_ids);
-  ("LIMITED_QUIRKY_PUBLIC_PREFIXES", map lower whatwg_limited_quirks_public_prefixes);
-  ("HTML4_PUBLIC_PREFIXES", map lower whatwg_html401_public_prefixes)].
+(* per table: the identifiers on which the regenerated table may differ from the standard's (D6) *)
+Definition quirks_table_exceptions (t : string) : list string :=
+  if String.eqb "QUIRKY_PUBLIC_PREFIXES" t then quirks_prefix_missing else [].
 
-Definition tables_equivb (names : list string) (T T' : list (string * list string)) : bool :=
+Definition tables_agree_outside_b (names : list string) (T T' : list (string * list string)) : bool :=
   list_eqb String.eqb (map fst T) names && list_eqb String.eqb (map fst T') names
-  && forallb (fun t => set_eqb String.eqb (table_named T t) (table_named T' t)) names.
+  && forallb (fun t => set_eqb_outside String.eqb (table_named T t) (table_named T' t) (quirks_table_exceptions t)) names.
 
 Lemma table_named_absent : forall T t, smem t (map fst T) = false -> table_named T t = [].
 Proof.
@@ -154,21 +148,24 @@ Proof.
   apply orb_false_iff in H. destruct H as [H1 H2]. rewrite String.eqb_sym, H1. now apply IH.
 Qed.
 
-Lemma tables_equivb_sound : forall names T T', tables_equivb names T T' = true -> tables_equiv T T'.
+Lemma tables_agree_outside_sound : forall names T T', tables_agree_outside_b names T T' = true ->
+  forall t x, smem x (quirks_table_exceptions t) = false -> smem x (table_named T t) = smem x (table_named T' t).
 Proof.
-  intros names T T' H t x. unfold tables_equivb in H.
+  intros names T T' H t x Hx. unfold tables_agree_outside_b in H.
   apply andb_true_iff in H. destruct H as [H H3]. apply andb_true_iff in H. destruct H as [H1 H2].
   apply (list_eqb_ok String.eqb string_eqb_ok) in H1. apply (list_eqb_ok String.eqb string_eqb_ok) in H2.
   destruct (smem t names) eqn:E.
-  - rewrite forallb_forall in H3. apply (set_eqb_sound String.eqb string_eqb_ok). apply H3.
-    now apply (mem_In String.eqb string_eqb_ok).
+  - rewrite forallb_forall in H3.
+    apply (set_eqb_outside_sound String.eqb string_eqb_ok _ _ (quirks_table_exceptions t)); [|exact Hx].
+    apply H3. now apply (mem_In String.eqb string_eqb_ok).
   - rewrite (table_named_absent T t), (table_named_absent T' t); congruence.
 Qed.
 
-Lemma gen_quirks_tables_equiv : tables_equiv quirks_tables whatwg_tables_without_silmaril.
+Lemma gen_quirks_tables_agree : forall t x, smem x (quirks_table_exceptions t) = false ->
+  smem x (table_named quirks_tables t) = smem x (table_named whatwg_quirks_tables t).
 Proof.
-  apply (tables_equivb_sound ["QUIRKY_PUBLIC_PREFIXES"; "QUIRKY_PUBLIC_MATCHES"; "QUIRKY_SYSTEM_MATCHES";
-                              "LIMITED_QUIRKY_PUBLIC_PREFIXES"; "HTML4_PUBLIC_PREFIXES"]).
+  apply (tables_agree_outside_sound ["QUIRKY_PUBLIC_PREFIXES"; "QUIRKY_PUBLIC_MATCHES"; "QUIRKY_SYSTEM_MATCHES";
+                                     "LIMITED_QUIRKY_PUBLIC_PREFIXES"; "HTML4_PUBLIC_PREFIXES"]).
   vm_compute. reflexivity.
 Qed.
 
@@ -176,36 +173,31 @@ Definition silmaril_lower : string := "+//silmaril//dtd html pro v0r11 19970101/
 Definition public_has_silmaril_prefix (d : doctype) : bool :=
   match dt_public d with Some p => String.prefix silmaril_lower (lower p) | None => false end.
 
-Lemma tables_ws_other : forall t, String.eqb "QUIRKY_PUBLIC_PREFIXES" t = false ->
-  table_named whatwg_tables_without_silmaril t = table_named whatwg_quirks_tables t.
-Proof.
-  intros t H. unfold whatwg_tables_without_silmaril, whatwg_quirks_tables. cbn [table_named]. rewrite H. reflexivity.
-Qed.
-Lemma tables_ws_prefixes :
-  table_named whatwg_quirks_tables "QUIRKY_PUBLIC_PREFIXES"
-  = silmaril_lower :: table_named whatwg_tables_without_silmaril "QUIRKY_PUBLIC_PREFIXES".
-Proof. vm_compute. reflexivity. Qed.
-
 (* the prefix table is only used for prefix tests *)
 Definition cond_ok (c : qcond) : bool :=
   match c with QcPublicIs t | QcSystemIs t => negb (String.eqb "QUIRKY_PUBLIC_PREFIXES" t) | _ => true end.
 
-Lemma eval_without_silmaril : forall arms d s, forallb (fun a => cond_ok (fst a)) arms = true ->
+Lemma eval_gen_tables_is_eval_whatwg_tables : forall arms d s, forallb (fun a => cond_ok (fst a)) arms = true ->
   public_has_silmaril_prefix d = false ->
-  eval_quirks whatwg_tables_without_silmaril arms d s = eval_quirks whatwg_quirks_tables arms d s.
+  eval_quirks quirks_tables arms d s = eval_quirks whatwg_quirks_tables arms d s.
 Proof.
   intros arms d s OK H. induction arms as [|[c r] t IH]; [reflexivity|].
   cbn [forallb fst] in OK. apply andb_true_iff in OK. destruct OK as [OK1 OK2].
   cbn [eval_quirks]. rewrite (IH OK2).
-  assert (qcond_holds whatwg_tables_without_silmaril d s c = qcond_holds whatwg_quirks_tables d s c) as E.
+  assert (qcond_holds quirks_tables d s c = qcond_holds whatwg_quirks_tables d s c) as E.
   { destruct c as [| | |t0|t0|t0|]; cbn [qcond_holds]; try reflexivity.
-    - cbn [cond_ok] in OK1. apply negb_true_iff in OK1. now rewrite (tables_ws_other t0 OK1).
-    - cbn [cond_ok] in OK1. apply negb_true_iff in OK1. now rewrite (tables_ws_other t0 OK1).
-    - destruct (String.eqb "QUIRKY_PUBLIC_PREFIXES" t0) eqn:E1.
-      + apply String.eqb_eq in E1. subst t0. rewrite tables_ws_prefixes.
-        unfold public_has_silmaril_prefix in H. destruct (dt_public d) as [p|]; [|reflexivity].
-        unfold has_prefix_in. cbn [existsb]. rewrite H. reflexivity.
-      + now rewrite (tables_ws_other t0 E1). }
+    - cbn [cond_ok] in OK1. apply negb_true_iff in OK1. destruct (dt_public d); [|reflexivity].
+      apply gen_quirks_tables_agree. unfold quirks_table_exceptions. now rewrite OK1.
+    - cbn [cond_ok] in OK1. apply negb_true_iff in OK1. destruct (dt_system d); [|reflexivity].
+      apply gen_quirks_tables_agree. unfold quirks_table_exceptions. now rewrite OK1.
+    - unfold public_has_silmaril_prefix in H. destruct (dt_public d) as [p|]; [|reflexivity].
+      unfold has_prefix_in.
+      apply (existsb_outside_ext String.eqb string_eqb_ok _ _ _ (quirks_table_exceptions t0)).
+      + apply gen_quirks_tables_agree.
+      + intros x Hx. unfold quirks_table_exceptions in Hx.
+        destruct (String.eqb "QUIRKY_PUBLIC_PREFIXES" t0); [|discriminate].
+        change quirks_prefix_missing with [silmaril_lower] in Hx. cbn [mem] in Hx. rewrite orb_false_r in Hx.
+        apply String.eqb_eq in Hx. subst x. exact H. }
   now rewrite E.
 Qed.
 
@@ -213,24 +205,11 @@ Theorem gen_quirks_mode_is_whatwg_outside_findings : forall d,
   public_has_silmaril_prefix d = false -> gen_quirks_mode d false = whatwg_quirks_mode d false.
 Proof.
   intros d H. unfold gen_quirks_mode.
-  rewrite (eval_quirks_ext _ _ quirks_arms d false gen_quirks_tables_equiv).
-  rewrite (eval_without_silmaril _ _ _ (eq_refl : forallb (fun a => cond_ok (fst a)) quirks_arms = true) H).
+  rewrite (eval_gen_tables_is_eval_whatwg_tables _ _ _ (eq_refl : forallb (fun a => cond_ok (fst a)) quirks_arms = true) H).
   rewrite eval_quirks_drop_srcdoc.
   assert (filter not_srcdoc quirks_arms = filter not_srcdoc whatwg_quirks_decision) as E by (vm_compute; reflexivity).
   rewrite E, <- eval_quirks_drop_srcdoc. apply whatwg_decision_list_is_function.
 Qed.
-
-(* the two defect classes are real (computed on the regenerated tables) *)
-Definition dt_silmaril : doctype :=
-  {| dt_name := Some "html"; dt_public := Some "+//Silmaril//dtd html Pro v0r11 19970101//EN"; dt_system := None;
-     dt_force := false |}.
-Definition dt_foo : doctype := {| dt_name := Some "foo"; dt_public := None; dt_system := None; dt_force := false |}.
-Theorem gen_quirks_mode_refuted_silmaril :
-  gen_quirks_mode dt_silmaril false = QNoQuirks /\ whatwg_quirks_mode dt_silmaril false = QQuirks.
-Proof. vm_compute. split; reflexivity. Qed.
-Theorem gen_quirks_mode_refuted_srcdoc :
-  gen_quirks_mode dt_foo true = QQuirks /\ whatwg_quirks_mode dt_foo true = QNoQuirks.
-Proof. vm_compute. split; reflexivity. Qed.
 
 (* ================================================================== adjustment tables (GenAdjust.v) *)
 Definition ss_lookup := lookup (V := string) String.eqb.
@@ -248,9 +227,9 @@ Definition sq_eqb : string * qname -> string * qname -> bool := pair_eqb String.
 Lemma sq_eqb_ok : eqb_ok sq_eqb.
 Proof. apply pair_eqb_ok; [apply string_eqb_ok | apply qname_eqb_ok]. Qed.
 (* as sets of (name, qualified name) pairs, up to the prefix of the xmlns attribute (D9) *)
-Lemma foreign_attr_adjust_is_whatwg_except : forall p,
-  mem sq_eqb p foreign_attr_adjust = up_to (mem sq_eqb) whatwg_foreign_attr_adjust foreign_attr_extra foreign_attr_missing p.
-Proof. unfold up_to. apply (set_eqb_except_sound sq_eqb sq_eqb_ok). vm_compute. reflexivity. Qed.
+Lemma foreign_attr_adjust_is_whatwg_except : forall p, mem sq_eqb p (foreign_attr_extra ++ foreign_attr_missing) = false ->
+  mem sq_eqb p foreign_attr_adjust = mem sq_eqb p whatwg_foreign_attr_adjust.
+Proof. apply (set_eqb_outside_sound sq_eqb sq_eqb_ok). vm_compute. reflexivity. Qed.
 (* namespace and local name of every adjusted attribute agree; the adjusted names (keys) agree *)
 Definition drop_prefix (x : string * qname) : string * (ns * string) := (fst x, (snd (fst (snd x)), snd (snd x))).
 Lemma foreign_attr_adjust_is_whatwg_modulo_prefix : forall n,
@@ -268,9 +247,9 @@ Lemma foreign_breakout_end_is_whatwg : foreign_breakout_end =s= whatwg_breakout_
 Proof. by_sset. Qed.
 Lemma foreign_font_attrs_is_whatwg : foreign_font_attrs =e= whatwg_breakout_font_attrs.
 Proof. by_eset. Qed.
-Lemma foreign_breakout_stop_is_whatwg_except : forall n,
-  smem n foreign_breakout_stop = up_to smem whatwg_breakout_stop [] breakout_stop_missing n.
-Proof. by_sexc. Qed.
+Lemma foreign_breakout_stop_is_whatwg_except : forall n, smem n breakout_stop_missing = false ->
+  smem n foreign_breakout_stop = smem n whatwg_breakout_stop.
+Proof. by_sout. Qed.
 Lemma is_foreign_mathml_tip_start_exceptions_is_whatwg :
   is_foreign_mathml_tip_start_exceptions =s= whatwg_mathml_tip_start_exceptions.
 Proof. by_sset. Qed.
@@ -393,9 +372,11 @@ Proof. by_sset. Qed.
 
 (* ================================================================== non-vacuity *)
 Example tables_non_empty :
-  (length ts_special_tag, length ts_default_scope, length quirky_public_prefixes, length svg_tag_adjust,
-   length svg_attr_adjust, length foreign_attr_adjust, length dispatch, length arms_InBody, length ser_void_elements)
-  = (82, 18, 54, 37, 58, 11, 22, 51, 18).
+  forallb (fun p => Nat.leb (fst p) (snd p))
+    [(80, length ts_special_tag); (18, length ts_default_scope); (54, length quirky_public_prefixes);
+     (37, length svg_tag_adjust); (58, length svg_attr_adjust); (11, length foreign_attr_adjust);
+     (22, length dispatch); (40, length arms_InBody); (18, length ser_void_elements);
+     (200, length (flat_map snd dispatch))] = true.
 Proof. vm_compute. reflexivity. Qed.
 Example special_tag_sample : emem (NsHtml, "table") ts_special_tag = true /\ emem (NsHtml, "span") ts_special_tag = false.
 Proof. vm_compute. split; reflexivity. Qed.
